@@ -26,8 +26,17 @@ RULE = ("one case = (objects t1,t2 of a user type T, optional problem = fluents 
         "negative / straddling / positive parameter or by an arithmetic combination of parameters, (p*x)/p, products with several "
         "negative factors, nested subtraction, x - (-c), 0*x*y, division by 1/p, fluent-dependent divisors, products of two "
         "fluent-dependent factors hidden under + and -. With a problem, static fluents with constant arguments are replaced by their "
-        "initial values before the analysis. Non-trivial = the expression contains - * or / and the answer either reports a "
-        "fluent or is 'not linear'.")
+        "initial values before the analysis. ~40% sign-by-interval family: a linear fluent part (fixed fluents and fresh fluents "
+        "of random small bounded types) multiplied by / divided by 1-3 FLUENT-FREE factors that are arithmetic over fresh "
+        "parameters whose int / real bounds are drawn per case (strictly positive, strictly negative, touching 0 from either side, "
+        "straddling 0, a single point incl. 0, one-sided, unbounded): differences with non-constant subtrahends, 2-3-ary sums and "
+        "products, quotients by constants and by point-typed parameters, negations, nested up to depth 2, the same parameter "
+        "twice; half of the factors are shifted by a constant so that one bound of their textbook interval lands on -2..2 (the "
+        "sign decision hangs on that bound); shapes G*X, X*G, G*X*G, G*(X*G), X/G, (G*X)/G, G*(X/G), (X/G)/G, Y-G*X, G*X-G*Y, "
+        "G*X+Y/G, c-X/G, G*(X-Y), (0-G)*X, (X-G)/G. The oracle evaluates every case exactly over the WHOLE declared domain of "
+        "each parameter whose type is an integer range of at most 13 values (bounds + inner values otherwise; grid capped at 600 "
+        "parameter valuations / 3000 evaluations, thinned towards the bounds). Non-trivial = the expression contains - * or / "
+        "and the answer either reports a fluent or is 'not linear'.")
 ASSUMPTIONS = ["domain (DESIGN 2.11): expressions over + - * /, numeric constants, numeric fluents and numeric parameters; no interpreted "
                "functions, no Boolean sub-expressions (walk_default is transparent for them)",
                "a 'fluent' of the property is a ground fluent: fluent applications take constant (object) arguments; two reported "
@@ -43,13 +52,18 @@ ASSUMPTIONS = ["domain (DESIGN 2.11): expressions over + - * /, numeric constant
                "no claim is made for a fluent reported in both sets or in none",
                "expressions are well-typed (built through the ExpressionManager); a generated case on which the simplifier itself "
                "raises (a constant divided by the constant zero) is kept: both sides answer an error tag; a case on which the TYPE "
-               "CHECKER raises while the simplifier rebuilds a node (a non-constant numerator of bounded type over a divisor "
-               "that simplified to the constant 0, e.g. through a static fluent whose initial value is 0) is skipped, as in C11: "
-               "the simplifier model does not re-type-check rebuilt nodes"]
+               "CHECKER raises ZeroDivisionError while the simplifier rebuilds a node (a non-constant numerator of bounded type "
+               "over a divisor that simplified to the constant 0, e.g. through a static fluent whose initial value is 0) is "
+               "skipped, as in C11: the simplifier model does not re-type-check rebuilt nodes; likewise a quotient whose divisor "
+               "has the point type [0,0] cannot be built (ZeroDivisionError at construction) and is skipped. Every OTHER "
+               "exception at construction or during the analysis is kept as a case and counts as a failure",
+               "exactness of the oracle: monotonicity is checked on a grid - all values of small integer parameter domains, the "
+               "bounds and a few inner values of every other bounded type, a few values of unbounded types; 2-4 values per fluent"]
 MODELLED = ["modelled by hand (tied by correspondence): LinearChecker.walk_* and _sign; reused models: Simplifier (C11), "
             "TypeChecker.get_type (C15); Python sets of FNodes as duplicate-free lists (compared sorted); Problem.get_static_fluents/"
             "initial_value as tables"]
 BUDGET_S = {"quick": 50, "thorough": 420}
+EXTRA_PROPS = ["UPVerif.Props.C17Sign"]
 
 TYPES = [["T", "_"]]
 OBJECTS = [["t1", "T"], ["t2", "T"]]
@@ -168,6 +182,211 @@ def planted(rng):
     return rng.choice(shapes)()
 
 
+# ---------------------------------------------------------------------------------------------------
+# sign-by-interval family: fluent-free factors / divisors whose sign the analysis can only know from the
+# INFERRED INTERVAL of an arithmetic combination of bounded parameters (TypeChecker.walk_plus/minus/times/div
+# feeding LinearChecker._sign).  All bounds are drawn from the rng, small enough for exhaustive evaluation.
+# ---------------------------------------------------------------------------------------------------
+
+BOUND_KINDS = ["pos"] * 3 + ["neg"] * 3 + ["lo0"] * 2 + ["hi0"] * 2 + ["straddle"] * 4 + ["point", "half-lo", "half-hi", "unbounded"]
+
+
+def rand_bounds(rng, real):
+    """a numeric type with random small bounds: strictly positive / strictly negative / touching 0 from above or
+    below / straddling 0 / a single point (0 included) / one-sided / unbounded"""
+    k = rng.choice(BOUND_KINDS)
+    a, b = rng.randint(1, 4), rng.randint(0, 5)
+    if k == "pos":
+        lo, hi = a, a + b
+    elif k == "neg":
+        lo, hi = -a - b, -a
+    elif k == "lo0":
+        lo, hi = 0, a + b
+    elif k == "hi0":
+        lo, hi = -a - b, 0
+    elif k == "straddle":
+        lo, hi = -a, rng.randint(1, 5)
+    elif k == "point":
+        lo = hi = rng.randint(-3, 3)
+    elif k == "half-lo":
+        lo, hi = rng.randint(-3, 3), None
+    elif k == "half-hi":
+        lo, hi = None, rng.randint(-3, 3)
+    else:
+        lo = hi = None
+    if real:
+        d = rng.choice([1, 2, 2, 3])
+        f = lambda x: "_" if x is None else q2s(Fraction(x, d))
+        return ["real", f(lo), f(hi)]
+    f = lambda x: "_" if x is None else str(x)
+    return ["int", f(lo), f(hi)]
+
+
+def _xmul(a, b):
+    if a == 0 or b == 0:
+        return Fraction(0)
+    return a * b
+
+
+def ref_interval(g):
+    """textbook interval of an arithmetic expression from the declared bounds of its parameters and fluents ((lo, hi), None =
+    unbounded); used only to steer the generator towards factors whose sign hangs on one bound and to recognise the
+    division-by-a-zero-typed-divisor refusal in usable()"""
+    INF = float("inf")
+    h = g[0]
+    if h in ("i", "r"):
+        return Fraction(g[1]), Fraction(g[1])
+    if h in ("p", "fl"):
+        t = g[2] if h == "p" else g[1][1]
+        return (None if t[1] == "_" else Fraction(t[1])), (None if t[2] == "_" else Fraction(t[2]))
+    iv = [ref_interval(a) for a in g[1:]]
+    ext = [(-INF if lo is None else lo, INF if hi is None else hi) for lo, hi in iv]
+    if h == "plus":
+        lo, hi = sum(l for l, _ in ext), sum(u for _, u in ext)
+    elif h == "minus":
+        lo, hi = ext[0][0] - ext[1][1], ext[0][1] - ext[1][0]
+    elif h == "times":
+        lo, hi = ext[0]
+        for l, u in ext[1:]:
+            ps = [_xmul(lo, l), _xmul(lo, u), _xmul(hi, l), _xmul(hi, u)]
+            lo, hi = min(ps), max(ps)
+    elif h == "div":
+        (l, u), (dl, du) = ext
+        if dl == du and dl != 0:
+            lo, hi = sorted([l / dl, u / dl])
+        else:
+            lo, hi = -INF, INF
+    else:
+        raise ValueError(h)
+    return (None if lo == -INF else Fraction(lo)), (None if hi == INF else Fraction(hi))
+
+
+class SignPool:
+    """the bounded parameters (and small bounded fluents) of one case: fresh names, types drawn from the rng"""
+
+    def __init__(self, rng):
+        self.rng = rng
+        self.params = []
+        self.nfl = 0
+
+    def param(self):
+        rng = self.rng
+        if self.params and rng.random() < 0.12:          # the same parameter twice (interval wider than the range)
+            return list(rng.choice(self.params))
+        p = ["p", "a%d" % len(self.params), rand_bounds(rng, rng.random() < 0.2)]
+        self.params.append(p)
+        return list(p)
+
+    def small_const(self, nonzero=False):
+        rng = self.rng
+        c = rng.choice([1, -1, 2, -2, 3, -3, 5, -4, 7] + ([] if nonzero else [0]))
+        if rng.random() < 0.2:
+            return ["r", q2s(Fraction(c, rng.choice([2, 3]))) if c else "0"]
+        return ["i", str(c)]
+
+    def factor(self, depth):
+        """a fluent-free numeric expression over the bounded parameters"""
+        rng = self.rng
+        k = rng.random()
+        if depth <= 0 or k < 0.10:
+            return self.param() if rng.random() < 0.85 else self.small_const()
+        if k < 0.42:
+            return ["minus", self.factor(depth - 1), self.factor(depth - 1)]
+        if k < 0.60:
+            return ["plus"] + [self.factor(depth - 1) for _ in range(rng.choice([2, 2, 3]))]
+        if k < 0.82:
+            return ["times"] + [self.factor(depth - 1) for _ in range(rng.choice([2, 2, 3]))]
+        if k < 0.92:                                     # the only divisors through which bounds propagate: constants
+            d = self.small_const(nonzero=True) if rng.random() < 0.7 else \
+                ["p", "c%d" % len(self.params), (lambda c: ["int", str(c), str(c)])(rng.choice([1, -1, 2, -3]))]
+            if d[0] == "p":
+                self.params.append(d)
+            return ["div", self.factor(depth - 1), list(d)]
+        if k < 0.96:
+            return ["minus", ["i", "0"], self.factor(depth - 1)]
+        return ["times", ["i", "-1"], self.factor(depth - 1)]
+
+    def edge(self, g):
+        """shift a factor by a constant so that one bound of its interval lands on -2..2: the sign decision then hangs on that
+        single bound (strictly positive vs touching 0 vs just across it), whichever type rule produced it.  The interval used
+        for steering is the textbook one (ref_interval); it never judges anything."""
+        rng = self.rng
+        lo, hi = ref_interval(g)
+        b = rng.choice([lo, hi])
+        if b is None:
+            return g
+        c = rng.choice([-1, 0, 1, -1, 0, 1, -2, 2]) - b
+        cs = lambda q: ["i", str(q.numerator)] if q.denominator == 1 and rng.random() < 0.8 else ["r", q2s(q)]
+        k = rng.random()
+        if k < 0.4:
+            return ["plus", g, cs(c)]
+        if k < 0.55:
+            return ["plus", cs(c), g]
+        if k < 0.8:
+            return ["minus", g, cs(-c)]
+        return ["minus", cs(-c), g]        # the mirror image: [-c - hi, -c - lo]
+
+    def fluent(self):
+        """a fluent leaf: one of the fixed fluents or a fresh nullary fluent of a small bounded type"""
+        rng = self.rng
+        if rng.random() < 0.5:
+            return fluent_leaf(rng)
+        self.nfl += 1
+        return ["fl", ["s%d" % self.nfl, rand_bounds(rng, rng.random() < 0.25), []]]
+
+    def linear_part(self):
+        rng = self.rng
+        k = rng.random()
+        if k < 0.5:
+            return self.fluent()
+        if k < 0.65:
+            return ["minus", self.fluent(), self.fluent()]
+        if k < 0.75:
+            return ["plus", self.fluent(), self.small_const()]
+        if k < 0.85:
+            return ["times", self.small_const(nonzero=True), self.fluent()]
+        if k < 0.93:
+            return ["minus", self.small_const(), self.fluent()]
+        return ["plus", self.fluent(), self.fluent()]
+
+
+def signed(rng):
+    """a product / quotient whose fluent-free factors / divisor are arithmetic over bounded parameters"""
+    S = SignPool(rng)
+    d = rng.choice([0, 1, 1, 1, 2, 2])
+    first = [True]
+
+    def G():          # one factor of the drawn depth, further ones at most one operator deep (keeps the parameter grid small)
+        dd = d if first[0] else min(d, rng.choice([0, 1]))
+        first[0] = False
+        g = S.factor(dd)
+        return S.edge(g) if rng.random() < 0.5 else g
+    X, Y = S.linear_part, S.linear_part
+    shapes = [
+        lambda: ["times", G(), X()],
+        lambda: ["times", X(), G()],
+        lambda: ["times", G(), X()],
+        lambda: ["times", X(), G()],
+        lambda: ["times", G(), X(), G()],
+        lambda: ["times", G(), G(), X()],
+        lambda: ["times", G(), ["times", X(), G()]],
+        lambda: ["div", X(), G()],
+        lambda: ["div", X(), G()],
+        lambda: ["div", X(), G()],
+        lambda: ["div", ["times", G(), X()], G()],
+        lambda: ["times", G(), ["div", X(), G()]],
+        lambda: ["div", ["div", X(), G()], G()],
+        lambda: ["minus", Y(), ["times", G(), X()]],
+        lambda: ["minus", ["times", G(), X()], ["times", G(), Y()]],
+        lambda: ["plus", ["times", G(), X()], ["div", Y(), G()]],
+        lambda: ["minus", S.small_const(), ["div", X(), G()]],
+        lambda: ["times", G(), ["minus", X(), Y()]],
+        lambda: ["times", ["minus", ["i", "0"], G()], X()],
+        lambda: ["div", ["minus", X(), G()], G()],
+    ]
+    return rng.choice(shapes)()
+
+
 def rand_const(rng, ty):
     if ty[0] == "int":
         lo = int(ty[1]) if ty[1] != "_" else (int(ty[2]) - 6 if ty[2] != "_" else -3)
@@ -198,11 +417,19 @@ def make_problem(rng, expr):
     return ["problem", ["fluents"] + fls, ["init"] + init]
 
 
+SIGNED_SHARE = 0.4
+
+
 def cases(rng, tier):
     n = 700 if tier == "quick" else 16000
     maxleaves = 5 if tier == "quick" else 7
     for _ in range(n):
-        if rng.random() < 0.3:
+        k = rng.random()
+        if k < SIGNED_SHARE:
+            e = signed(rng)
+            if rng.random() < 0.2:
+                e = [rng.choice(["plus", "minus"]), e, gen(rng, rng.choice([1, 2]))]
+        elif k < SIGNED_SHARE + 0.2:
             e = planted(rng)
             if rng.random() < 0.3:
                 e = [rng.choice(["plus", "minus"]), e, gen(rng, rng.choice([1, 2]))]
@@ -215,16 +442,35 @@ def cases(rng, tier):
 
 
 def usable(payload):
-    """the constructors accept the expression, and the TYPE CHECKER does not raise while the simplifier rebuilds nodes
-    (ZeroDivisionError: `e / c` whose divisor simplified to the constant 0 under a numerator of bounded type — whether
-    such a node can be built is decided by the type checker's interval arithmetic, C15; the C11 model of the simplifier
-    does not re-type-check rebuilt nodes, same exclusion as in props/C11.py)"""
+    """the expression is not one of the two documented refusals: a quotient by a divisor of point type [0,0] (cannot be built),
+    and the TYPE CHECKER raising ZeroDivisionError while the simplifier rebuilds nodes (`e / c` whose divisor simplified to
+    the constant 0 under a numerator of bounded type — whether such a node can be built is decided by the type checker's
+    interval arithmetic, C15; the C11 model of the simplifier does not re-type-check rebuilt nodes, same exclusion as in
+    props/C11.py)"""
     try:
         ctx, problem, expr = build(payload)
+    except ZeroDivisionError:
+        # the one refusal the unchanged library has on this domain: `e / d` where the TYPE of d is the point 0 (TypeChecker.walk_div
+        # divides the bounds of e by it).  Anything else the constructors raise on a well-typed arithmetic expression is kept
+        # as a case: impl() answers (err build:...), the model does not, and the oracle reports it.
+        return not zero_point_divisor(payload[4])
     except Exception:   # noqa
-        return False
+        return True
     r = run(ctx, problem, expr)
-    return not (r[0] == "err" and r[1].startswith("typecheck:"))
+    return not (r[0] == "err" and r[1] == "typecheck:ZeroDivisionError")
+
+
+def zero_point_divisor(e):
+    """some quotient in e has a divisor whose declared/inferred interval is exactly [0,0]"""
+    if not isinstance(e, list) or not e or e[0] in ("fl", "p", "i", "r", "o"):
+        return False
+    if e[0] == "div":
+        try:
+            if ref_interval(e[2]) == (0, 0):
+                return True
+        except Exception:   # noqa
+            pass
+    return any(zero_point_divisor(a) for a in e[1:])
 
 
 # ---------------------------------------------------------------------------------------------------
@@ -300,7 +546,10 @@ def _sorted(es):
 
 
 def impl(payload):
-    ctx, problem, expr = build(payload)
+    try:
+        ctx, problem, expr = build(payload)
+    except Exception as ex:   # noqa
+        return ["err", "build:" + type(ex).__name__]
     r = run(ctx, problem, expr)
     if r[0] == "err":
         return ["err", r[1]]
@@ -371,7 +620,81 @@ def stats(payload, ans):
             t.append("static-fluent")
     if _maxabs(e) > 2 ** 53:
         t.append("const>2^53")
+    t += sign_tags(e, ans)
     t.append("leaves:%d" % n_leaves(e))
+    return t
+
+
+def has_head(s, heads):
+    if not isinstance(s, list) or not s:
+        return False
+    if s[0] in heads:
+        return True
+    if s[0] in ("fl", "p", "i", "r", "o"):
+        return False
+    return any(has_head(x, heads) for x in s[1:])
+
+
+def sign_factors(e, acc):
+    """the fluent-free, parameter-dependent factors of products and divisors of quotients (as written in the case)"""
+    if not isinstance(e, list) or not e or e[0] in ("fl", "p", "i", "r", "o"):
+        return acc
+    if e[0] == "times":
+        acc += [a for a in e[1:] if not has_head(a, ("fl",)) and has_head(a, ("p",))]
+    if e[0] == "div" and not has_head(e[2], ("fl",)) and has_head(e[2], ("p",)):
+        acc.append(e[2])
+    for a in e[1:]:
+        if has_head(a, ("fl",)):
+            sign_factors(a, acc)
+    return acc
+
+
+def nonconst_subtrahend(g):
+    if not isinstance(g, list) or not g or g[0] in ("fl", "p", "i", "r", "o"):
+        return False
+    if g[0] == "minus" and has_head(g[2], ("p",)):
+        return True
+    return any(nonconst_subtrahend(a) for a in g[1:])
+
+
+def exact_range_class(g):
+    """the sign class of the values a fluent-free factor really takes over the declared parameter domains (whole domain of
+    small integer types, bounds and a few inner values otherwise; measured for the evidence, never used by the oracle)"""
+    pars = upx.free_names(g)["p"]
+    if any(p[2][1] == "_" or p[2][2] == "_" for p in pars):
+        return "one-sided-or-unbounded-parameter"
+    doms = param_domains([p[2] for p in pars], False, 3000)
+    vals = []
+    for pv in product(*doms):
+        v = pyden.den(g, {"fl": {}, "fn": {}, "par": {p[1]: ("n", x) for p, x in zip(pars, pv)}, "dom": {}})
+        if v is not None:
+            vals.append(v[1])
+    if not vals:
+        return "no-value"
+    lo, hi = min(vals), max(vals)
+    return ">0" if lo > 0 else "<0" if hi < 0 else "=0" if lo == hi else "touches-0" if (lo == 0 or hi == 0) else "straddles-0"
+
+
+def sign_tags(e, ans):
+    gs = sign_factors(e, [])
+    if not gs:
+        return []
+    t = ["sgn:param-dependent-factor"]
+    if any(g[0] != "p" for g in gs):
+        t.append("sgn:factor-is-arithmetic")
+    if any(nonconst_subtrahend(g) for g in gs):
+        t.append("sgn:difference-with-nonconstant-subtrahend")
+    if any(has_head(g, ("times",)) for g in gs):
+        t.append("sgn:factor-has-product")
+    if any(has_head(g, ("plus",)) for g in gs):
+        t.append("sgn:factor-has-sum")
+    if any(has_head(g, ("div",)) for g in gs):
+        t.append("sgn:factor-has-quotient")
+    for c in sorted(set(exact_range_class(g) for g in gs)):
+        t.append("sgn:factor-range:" + c)
+    pos, neg = set(sexp.dumps(x) for x in ans[2]), set(sexp.dumps(x) for x in ans[3])
+    if ans[1] == "T" and (pos or neg):
+        t.append("sgn:sign-decided" if (pos ^ neg) else "sgn:sign-unknown")
     return t
 
 
@@ -410,6 +733,107 @@ def sample_domain(ty, small):
         idx = sorted(set(round(i * (len(out) - 1) / (k - 1)) for i in range(k)))
         out = [out[i] for i in idx]
     return out
+
+
+FULL_DOMAIN_MAX = 13      # a bounded integer type with at most this many values is enumerated completely
+PARAM_GRID_MAX = 600      # ... as long as the grid of parameter valuations stays below this size
+
+
+def full_domain(ty):
+    if ty[0] == "int" and ty[1] != "_" and ty[2] != "_" and int(ty[2]) - int(ty[1]) + 1 <= FULL_DOMAIN_MAX:
+        return [Fraction(v) for v in range(int(ty[1]), int(ty[2]) + 1)]
+    return None
+
+
+def param_domains(tys, small, grid_max=None):
+    """the values each parameter ranges over: its WHOLE declared domain when that is a small integer range (the sign of a
+    fluent-free factor is decided by the parameters alone, so this is where exactness matters), otherwise the bounds of the
+    type and a few values between / around 0.  When the grid gets too large the largest domains fall back to
+    (bounds + spread values) and finally to the two ends, which always keeps both bounds of every bounded type."""
+    doms = [full_domain(t) or sample_domain(t, small) for t in tys]
+
+    def size():
+        n = 1
+        for d in doms:
+            n *= len(d)
+        return n
+    for k in (4, 3, 2):
+        while size() > (grid_max or PARAM_GRID_MAX):
+            i = max(range(len(doms)), key=lambda j: len(doms[j]))
+            if len(doms[i]) <= k:
+                break
+            doms[i] = sample_domain(tys[i], k == 3) if k > 2 else [doms[i][0], doms[i][-1]]
+    return doms
+
+
+EVAL_MAX = 3000           # evaluations of the expression per case
+
+
+def evaluation_grid(ftys, ptys):
+    """(values per fluent, values per parameter).  Parameters: param_domains (whole small integer domains).  Fluents: 4 / 3
+    values spread over the type (always both bounds of a bounded type); when fluents x parameters exceeds EVAL_MAX the fluents
+    go down to 3 and then 2 values (the two ends of what was sampled) before the parameter grid is thinned."""
+    small = len(ftys) + len(ptys) > 4
+    pdoms = param_domains(ptys, small)
+    fdoms = [sample_domain(t, small) for t in ftys]
+
+    def size(ds):
+        n = 1
+        for d in ds:
+            n *= len(d)
+        return n
+    if size(pdoms) * size(fdoms) > EVAL_MAX:
+        fdoms = [sample_domain(t, True) for t in ftys]
+    if size(pdoms) * size(fdoms) > EVAL_MAX:
+        fdoms = [[d[0], d[-1]] if len(d) > 2 else d for d in fdoms]
+    if size(pdoms) * size(fdoms) > EVAL_MAX:
+        pdoms = param_domains(ptys, small, max(16, EVAL_MAX // max(1, size(fdoms))))
+    return fdoms, pdoms
+
+
+def compile_num(e):
+    """closure (parameter values {name: Fraction}, fluent values {fluent_key: Fraction}) -> Fraction | None: pyden.den on the
+    arithmetic fragment without re-reading the s-expression at every grid point (cross-checked against pyden.den per case)"""
+    h = e[0]
+    if h in ("i", "r"):
+        c = Fraction(e[1])
+        return lambda P, Fl: c
+    if h == "p":
+        n = e[1]
+        return lambda P, Fl: P.get(n)
+    if h == "fl":
+        k = fluent_key(e)
+        return lambda P, Fl: Fl.get(k)
+    fs = [compile_num(a) for a in e[1:]]
+    if h == "plus":
+        def f(P, Fl):
+            t = Fraction(0)
+            for g in fs:
+                v = g(P, Fl)
+                if v is None:
+                    return None
+                t += v
+            return t
+    elif h == "times":
+        def f(P, Fl):
+            t = Fraction(1)
+            for g in fs:
+                v = g(P, Fl)
+                if v is None:
+                    return None
+                t *= v
+            return t
+    elif h == "minus" and len(fs) == 2:
+        def f(P, Fl):
+            a, b = fs[0](P, Fl), fs[1](P, Fl)
+            return None if a is None or b is None else a - b
+    elif h == "div" and len(fs) == 2:
+        def f(P, Fl):
+            a, b = fs[0](P, Fl), fs[1](P, Fl)
+            return None if a is None or b is None or b == 0 else a / b
+    else:
+        raise ValueError(f"outside the arithmetic fragment: {h}")
+    return f
 
 
 def fluent_key(s):
@@ -466,7 +890,10 @@ def syntactic_clause(e):
 
 
 def oracle(payload):
-    ctx, problem, expr = build(payload)
+    try:
+        ctx, problem, expr = build(payload)
+    except Exception as ex:   # noqa
+        return f"a well-typed arithmetic expression could not be built ({type(ex).__name__}: {str(ex)[:80]})"
     e = payload[4]
     r = run(ctx, problem, expr)
     if r[0] == "err":
@@ -490,38 +917,51 @@ def oracle(payload):
     fixed = fixed_statics(payload)
     fls = [(k, ty) for k, ty in ground_fluents(e, []) if k not in fixed]
     pars = upx.free_names(e)["p"]
-    small = len(fls) + len(pars) > 4
-    fdoms = [sample_domain(ty, small) for _, ty in fls]
-    pdoms = [sample_domain(p[2], small) for p in pars]
+    fdoms, pdoms = evaluation_grid([ty for _, ty in fls], [p[2] for p in pars])
+    ev = compile_num(e)
+    fl_env = {k: v[1] for k, v in fixed.items()}
+    names = [p[1] for p in pars]
+    fidx = list(product(*[range(len(d)) for d in fdoms]))
+    checked = False
     for pv in product(*pdoms):
-        I = {"fl": dict(fixed), "fn": {}, "par": {p[1]: ("n", x) for p, x in zip(pars, pv)}, "dom": {}}
+        P = dict(zip(names, pv))
         table = {}
-        for fv in product(*[range(len(d)) for d in fdoms]):
+        for fv in fidx:
             for (k, _), d, i in zip(fls, fdoms, fv):
-                I["fl"][k] = ("n", d[i])
+                fl_env[k] = d[i]
+            table[fv] = ev(P, fl_env)
+        if not checked:      # the compiled evaluator is only a faster pyden.den: same value on the first grid point
+            checked = True
+            I = {"fl": {k: ("n", v) for k, v in fl_env.items()}, "fn": {}, "par": {n: ("n", x) for n, x in P.items()}, "dom": {}}
             v = pyden.den(e, I)
-            table[fv] = None if v is None else v[1]
+            if (None if v is None else v[1]) != table[fidx[-1]]:
+                return "oracle self-check failed: compiled evaluator and pyden.den differ"
         for ax, ((k, _), d) in enumerate(zip(fls, fdoms)):
+            only_pos = k in pos_k and k not in neg_k
+            only_neg = k in neg_k and k not in pos_k
             slope = None
-            for fv, val in table.items():
+            for fv in fidx:
                 if fv[ax] + 1 >= len(d):
                     continue
-                nxt = fv[:ax] + (fv[ax] + 1,) + fv[ax + 1:]
-                val2 = table[nxt]
+                val = table[fv]
+                val2 = table[fv[:ax] + (fv[ax] + 1,) + fv[ax + 1:]]
                 if val is None or val2 is None:
                     continue
-                where = f"fluent {k[0]}{[str(a[1]) for a in k[1]]} {d[fv[ax]]}->{d[fv[ax] + 1]}, parameters {dict((p[1], str(x)) for p, x in zip(pars, pv))}"
+
+                def where():
+                    return (f"fluent {k[0]}{[str(a[1]) for a in k[1]]} {d[fv[ax]]}->{d[fv[ax] + 1]}, parameters "
+                            f"{dict((n, str(x)) for n, x in zip(names, pv))}")
                 # clause 1: monotonicity in a fluent reported only positively / only negatively
-                if k in pos_k and k not in neg_k and val2 < val:
-                    return f"reported only among the positive fluents but the value decreases: {where}: {val}->{val2}"
-                if k in neg_k and k not in pos_k and val2 > val:
-                    return f"reported only among the negative fluents but the value increases: {where}: {val}->{val2}"
+                if only_pos and val2 < val:
+                    return f"reported only among the positive fluents but the value decreases: {where()}: {val}->{val2}"
+                if only_neg and val2 > val:
+                    return f"reported only among the negative fluents but the value increases: {where()}: {val}->{val2}"
                 # clause 2, semantic reading: constant finite differences
-                s = (val2 - val) / (d[fv[ax] + 1] - d[fv[ax]])
+                sl = (val2 - val) / (d[fv[ax] + 1] - d[fv[ax]])
                 if slope is None:
-                    slope = s
-                elif s != slope:
-                    return f"reported linear but not affine in the fluents: {where}: slope {s} vs {slope}"
+                    slope = sl
+                elif sl != slope:
+                    return f"reported linear but not affine in the fluents: {where()}: slope {sl} vs {slope}"
     return None
 
 
@@ -553,7 +993,10 @@ MANIFEST = {
                    "types: if the analysis reports 'linear' and a ground fluent only among the positive (negative) fluents, the value is "
                    "non-decreasing (non-increasing) in that fluent, and independent of a fluent reported in neither set; an expression "
                    "whose simplified form contains a product with two fluent-dependent factors or a quotient with a fluent-dependent "
-                   "divisor is never reported linear. The model is tied to the real code by a differential check on (is_linear, "
+                   "divisor is never reported linear. Props/C17Sign.lean: the sign the analysis reads off the inferred interval of a "
+                   "fluent-free factor / divisor (computed by the model itself from the C15 model of the type checker, nothing "
+                   "supplied by the real run) is the sign of every value within the declared types, for every expression. The "
+                   "model is tied to the real code by a differential check on (is_linear, "
                    "sorted positive set, sorted negative set), and the property itself (monotonicity and affineness by exhaustive "
                    "exact evaluation over small domains of the leaves) is evaluated on the real code for every case."),
     "level_note": ("Trusted: Lean kernel; axioms propext, Classical.choice, Quot.sound; Driver.lean + harness (generator, "
